@@ -139,8 +139,10 @@ def check(case):
         # 1 % of the field; where the contributions of the individual pulses cancel (partial nulls of the near field)
         # the per-pulse approximation errors of the program (a few 1e-4 each) do not cancel with them: allow 5e-4 of
         # the summed magnitudes of the contributions in addition
-        de = np.linalg.norm(e - Er) / (np.linalg.norm(Er) + 0.05 * sE)
-        dh = np.linalg.norm(h - Hr) / (np.linalg.norm(Hr) + 0.05 * sH)
+        # (a field that vanishes identically by symmetry - H on the axis of a straight wire - is compared with
+        # the other field as scale)
+        de = np.linalg.norm(e - Er) / (np.linalg.norm(Er) + 0.05 * sE + 1e-6 * 376.7 * np.linalg.norm(Hr) + 1e-300)
+        dh = np.linalg.norm(h - Hr) / (np.linalg.norm(Hr) + 0.05 * sH + 1e-6 * np.linalg.norm(Er) / 376.7 + 1e-300)
         # the program differentiates the potentials numerically over 0.001 wavelength; closer than 8 such
         # steps to a conductor the truncation error of that step alone exceeds the 1 % of the statement
         dmin = dist_to_structure(obs, topo, ground)
